@@ -496,6 +496,75 @@ example : curveAt (sortPairs (List.zip [4, 0, 2] [-1, 0, 1])) 1 = 1 / 2 ∧ curv
     curveAt (sortPairs (List.zip [4, 0, 2] [-1, 0, 1])) (-5) = 0 ∧ curveAt (sortPairs (List.zip [4, 0, 2] [-1, 0, 1])) 9 = -1 := by
   decide +kernel
 
+/-! ### mean-to-mid and curve-by-z-score: which control points the curve goes through -/
+
+/-- **the five statistics of the mean-to-mid commands**: minimum and maximum of the present cells (zeros included), and - over the present cells,
+without the zeros when `IgnoreZeros` - the mean, the mean of the values at or below it and the mean of the values above it (none when no value lies above) -/
+theorem mtmStats_spec (valid : List Rat) (iz : Bool) (low high mean lowMean : Rat) (highMean : Option Rat)
+    (h : mtmStats valid iz = .ok (low, high, mean, lowMean, highMean)) :
+    minL valid = some low ∧ maxL valid = some high ∧
+    meanL (if iz then valid.filter (· != 0) else valid) = some mean ∧
+    meanL ((if iz then valid.filter (· != 0) else valid).filter (· ≤ mean)) = some lowMean ∧
+    highMean = meanL ((if iz then valid.filter (· != 0) else valid).filter (· > mean)) := by
+  unfold mtmStats at h
+  split at h
+  · rename_i lo hi hlo hhi
+    simp only at h
+    split at h
+    · cases h
+    · rename_i m hm
+      split at h
+      · cases h
+      · rename_i lm hlm
+        injection h with h
+        simp only [Prod.mk.injEq] at h
+        obtain ⟨rfl, rfl, rfl, rfl, rfl⟩ := h
+        exact ⟨hlo, hhi, hm, hlm, rfl⟩
+  · cases h
+
+/-- **NormalizeMeanToMid / CvtToFuzzyMeanToMid, cell by cell**: whenever the command returns a result, it is the piecewise-linear curve (as specified by
+`normalizeCurve_spec`: shape and missing cells kept, flat outside, on the line between consecutive points) through the control points `mtmPoints`
+derives from the five statistics of the field's present cells -/
+theorem meanToMid_spec (a r : Arr) (iz : Bool) (vals : List Num) (h : meanToMidBody a iz vals = .ok r) :
+    ∃ raw nv, mtmPoints a.valid iz vals = .ok (raw, nv) ∧ raw.length = nv.length ∧ hasDup raw = false ∧ raw ≠ [] ∧
+      (sortPairs (List.zip raw nv)).Pairwise (fun p q => p.1 < q.1) ∧
+      r.dtype = .float ∧ r.shape = a.shape ∧
+      r.cells = a.cells.map fun c => ⟨curveAt (sortPairs (List.zip raw nv)) c.val, c.mask⟩ := by
+  unfold meanToMidBody at h
+  split at h
+  · cases h
+  · rename_i raw nv hp
+    exact ⟨raw, nv, hp, normalizeCurve_spec _ a r raw nv h⟩
+
+/-- **NormalizeCurveZScore / CvtToFuzzyCurveZScore, cell by cell**: the curve through the control points `mean + z·deviation` (mean and population variance of
+the present cells, `meanL_eq` / `varL_eq`; `sqrt` is the model's parameter), with the given values -/
+theorem curveZScore_spec (sqrt : Rat → Rat) (a r : Arr) (z vals : List Num) (h : curveZBody sqrt a z vals = .ok r) :
+    z.length = vals.length ∧ z ≠ [] ∧ ∃ mean var, meanL a.valid = some mean ∧ varL a.valid = some var ∧
+      r.dtype = .float ∧ r.shape = a.shape ∧
+      r.cells = a.cells.map fun c =>
+        ⟨curveAt (sortPairs (List.zip (z.map fun v => mean + v.val * sqrt var) (vals.map (·.val)))) c.val, c.mask⟩ := by
+  unfold curveZBody at h
+  split at h
+  · cases h
+  · rename_i hlen
+    split at h
+    · rename_i mean var hm hv
+      split at h
+      · cases h
+      · rename_i hz
+        injection h with h; subst h
+        refine ⟨by simpa using hlen, by intro e; subst e; simp at hz, mean, var, hm, hv, rfl, rfl, rfl⟩
+    · cases h
+
+/-- the fuzzy variants are the same curves limited to [-1, 1] -/
+theorem cvtToFuzzy_meanToMid_curveZ_eq_clamp (sqrt : Rat → Rat) (a : Arr) (iz : Bool) (z vals : List Num) :
+    exec sqrt (.cvtToFuzzyMeanToMid iz vals) [a] = (exec sqrt (.normalizeMeanToMid iz vals) [a]).map (Arr.insure (-1) 1) ∧
+    exec sqrt (.cvtToFuzzyCurveZScore z vals) [a] = (exec sqrt (.normalizeCurveZScore z vals) [a]).map (Arr.insure (-1) 1) := by
+  simp only [exec, fuzzyClamp, and_self]
+
+/-- non-vacuity: the field 1, 2, 3, 6 (mean 3; lower part 1, 2, 3 with mean 2; upper part 6) -/
+example : mtmStats [1, 2, 3, 6] false = .ok (1, 6, 3, 2, some 6) := by decide +kernel
+
 /-! ### z-score normalisation -/
 
 /-- the line through `(mean + sd·tt, y1)` and `(mean + sd·ft, y2)` is the line through `(tt, y1)` and `(ft, y2)` read in z units `(x − mean) / sd` -/
